@@ -169,6 +169,7 @@ class Sim:
         self.open_readers: dict[str, set] = {}
         self.probes: dict[str, int] = {}
         self.current: Actor | None = None
+        self.killed_at = None
 
     # ---- helpers -------------------------------------------------------- #
     def owns(self, path) -> bool:
@@ -234,7 +235,8 @@ class Sim:
         return modes[self.chooser.choose(len(modes), "chunk-mode")]
 
     def chunk_sizes(self, n: int, mode: int):
-        """0: whole; 1: 2..5 pieces; 2: fine (1..16 B) for the first 24 chunks; 3: byte-wise (<=64)."""
+        """0: whole; 1: 2..5 pieces; 2: fine (1..16 B) for the first 24 chunks; 3: byte-wise (<=64);
+        4: byte-wise throughout (directed crash sweep)."""
         if n <= 1 or mode == 0:
             yield n
             return
@@ -249,10 +251,10 @@ class Sim:
                 done += size
             yield n - done
             return
-        limit = 24 if mode == 2 else 64
+        limit = 24 if mode == 2 else (64 if mode == 3 else n)
         count = 0
         while done < n and count < limit:
-            size = 1 if mode == 3 else 1 + self.chooser.choose(16, "fine")
+            size = 1 if mode in (3, 4) else 1 + self.chooser.choose(16, "fine")
             size = min(size, n - done)
             yield size
             done += size
@@ -267,6 +269,8 @@ class Sim:
     def _decide_fault(self, actor: Actor) -> int:
         if not actor.faults:
             return FAULT_NONE
+        if "kill_at_step" in self.knobs:  # directed fault placement (crash sweep)
+            return FAULT_KILL if self.steps == int(self.knobs["kill_at_step"]) else FAULT_NONE
         kind = actor.pending[0]
         can_kill = self.kills_left > 0 and actor.in_call and kind not in ("start",)
         can_error = self.errors_left > 0 and kind == "write"
@@ -285,6 +289,7 @@ class Sim:
     def _kill(self, actor: Actor) -> None:
         actor.state = "killed"
         self.kills_left -= 1
+        self.killed_at = {"step": self.steps, "seam": actor.pending[0], "detail": actor.pending[1]}
         self.fired["kill"] += 1
         site = actor.pending[0] + ("+w" if actor.writing else "")
         self.kill_sites[site] = self.kill_sites.get(site, 0) + 1
@@ -483,6 +488,33 @@ def _sim_time(fn_name: str, scale: float):
     return wrapper
 
 
+def _sim_sleep(seconds):
+    actor = _actor()
+    sim = _SIM
+    if actor is None or sim is None:
+        return _real["sleep"](seconds)
+    sim.seam("sleep", "")  # simulated processes never really sleep; others get to run
+    return None
+
+
+def _sim_flock(fd, operation):
+    import fcntl  # noqa: PLC0415
+
+    actor = _actor()
+    sim = _SIM
+    if actor is None or sim is None:
+        return _real["fcntl.flock"](fd, operation)
+    if operation & fcntl.LOCK_UN or operation & fcntl.LOCK_NB:
+        sim.seam("flock", str(operation))
+        return _real["fcntl.flock"](fd, operation)
+    while True:
+        sim.seam("lock-wait", "")
+        try:
+            return _real["fcntl.flock"](fd, operation | fcntl.LOCK_NB)
+        except BlockingIOError:
+            sim.probe("lock_contended")
+
+
 _PATH_FNS_1 = ("stat", "lstat", "mkdir", "rmdir", "unlink", "remove", "listdir", "scandir",
                "utime", "chmod", "truncate", "access", "readlink")
 _PATH_FNS_2 = ("rename", "replace", "link", "symlink")
@@ -520,4 +552,10 @@ def install(sim: Sim) -> None:
                         ("perf_counter", 1), ("perf_counter_ns", 1e9)):
         _real[name] = getattr(time, name)
         setattr(time, name, _sim_time(name, scale))
+    import fcntl  # noqa: PLC0415
+
+    _real["sleep"] = time.sleep
+    time.sleep = _sim_sleep
+    _real["fcntl.flock"] = fcntl.flock
+    fcntl.flock = _sim_flock
     random.seed("simverif-global")
